@@ -4,6 +4,7 @@ import (
 	"fmt"
 	"log/slog"
 	"maps"
+	"math"
 	"slices"
 
 	"github.com/AdguardTeam/AdGuardDNS/internal/bindtodevice"
@@ -66,6 +67,13 @@ func (c *interfaceListenersConfig) validate() (err error) {
 		return nil
 	case c.ChannelBufferSize <= 0:
 		return newNotPositiveError("channel_buffer_size", c.ChannelBufferSize)
+	case c.ChannelBufferSize > math.MaxInt32:
+		return fmt.Errorf(
+			"channel_buffer_size: %w: must be less than or equal to %d, got %d",
+			errors.ErrOutOfRange,
+			math.MaxInt32,
+			c.ChannelBufferSize,
+		)
 	case len(c.List) == 0:
 		return fmt.Errorf("list: %w", errors.ErrEmptyValue)
 	default:
